@@ -45,7 +45,12 @@ package scheduler
 // deduplication map, and only when the task is final (not on the retry on the
 // largest size class).
 //@ func (*task).complete
-//@   props C03 C01 C05 C07 C04
+//@   props C03 C01 C05 C07 C04 C02
+//@   ensures a-completed-task-stays-as-it-is: old(t.executeResponse) != nil ==> t.executeResponse == old(t.executeResponse) && t.stageChangeWakeup == old(t.stageChangeWakeup)
+//@   ensures final-completion-stores-the-response-the-caller-gave:
+//@             old(t.executeResponse) == nil && t.executeResponse != nil ==> t.executeResponse == executeResponse && t.stageChangeWakeup == nil
+//@   at call builtin.close#1 assert final-completion-wakes-every-waiter-after-the-response-is-in-place:
+//@             arg0 == t.stageChangeWakeup && t.executeResponse == executeResponse
 //@   ensures the-learner-of-the-task-gets-exactly-one-verdict:
 //@             old(t.executeResponse) == nil && old(t.initialSizeClassLearner) != nil ==>
 //@             lrncalls(old(t.initialSizeClassLearner)) == old(lrncalls(t.initialSizeClassLearner)) + 1
@@ -408,3 +413,10 @@ package scheduler
 //@   loop 2 invariant schedsteps(1) == 0 && schedsteps(2) == 0
 //@   loop 4 invariant schedsteps(1) == 0
 //@   ensures handed-to-one-worker-or-queued-never-both: (schedsteps(1) == 1 && schedsteps(2) == 0) || schedsteps(1) == 0
+
+// Adding a drain registers it and wakes exactly the parked workers it matches,
+// so that they stop picking up work at once (C05).
+//@ func (*InMemoryBuildQueue).AddDrain$1
+//@   props C05
+//@   at call wakeUp#1 assert only-workers-parked-in-synchronize-are-woken: w.wakeup != nil && arg1 == scq
+//@   ensures the-drain-is-registered: drainKey in scq.drains
